@@ -890,7 +890,13 @@ func TestVerifC20Handler(t *testing.T) {
 					}
 					for _, fl := range flags {
 						for _, sq := range as {
-							for _, en := range entries {
+							ens := entries
+							if len(ens) == 1 && (sa.CachedMark || sa.LocalMark != "" || sa.EDE == 13 || sa.Name == "nodata" || sa.Name == "native") {
+								// quick tier: the wire-born entry for the shapes whose recognition hangs on the request
+								// tree's context (failure marks set by handlers below) and for the two plain shapes
+								ens = []string{"msg", "wire"}
+							}
+							for _, en := range ens {
 								if en == "wire" && fl.Internal {
 									continue
 								}
